@@ -56,7 +56,7 @@ def search(ctx: Ctx) -> Result:
 
 
 SPEC = PropSpec(
-    prop='C06', translators=[], run=run, search=search,
+    prop='C06', translators=['modes'], run=run, search=search,
     rule='repeated-failure family (2-3 consecutive failed or unacknowledged SYNCs to one peer with successive states of one run), outage family (a link down for 5..120 s around the ping/resync thresholds with 0-2 changes pending), merged-backlog family, '
          'and seeded random fault sequences of 8-40 operations over {input, pass, deliver, down, up, fail-after-delivery, '
          'tick 1/5/10/31/61} for 2-3 instances with default and short periods, each followed by healing all links and running '
